@@ -1,0 +1,52 @@
+//! Verification hooks (only compiled with `--cfg rosu_pp_verif`).
+
+use rosu_map::section::general::GameMode;
+
+use crate::{
+    model::{beatmap::Beatmap, hit_object::HitObject, mode::ConvertError},
+    Difficulty,
+};
+
+use super::{
+    convert,
+    object::{ManiaObject, ObjectParams},
+};
+
+/// Per object of the map as the mania difficulty calculation sees it:
+/// `(is_circle, start_time, end_time)`.
+pub fn object_spans(
+    difficulty: &Difficulty,
+    map: &Beatmap,
+) -> Result<Vec<(bool, f64, f64)>, ConvertError> {
+    let mut map = map.convert_ref(GameMode::Mania, difficulty.get_mods())?;
+
+    if difficulty.get_mods().ho() {
+        convert::apply_hold_off_to_beatmap(map.to_mut());
+    }
+
+    if difficulty.get_mods().invert() {
+        convert::apply_invert_to_beatmap(map.to_mut());
+    }
+
+    if let Some(seed) = difficulty.get_mods().random_seed() {
+        convert::apply_random_to_beatmap(map.to_mut(), seed);
+    }
+
+    let total_columns = map.cs.round_ties_even().max(1.0);
+    let mut params = ObjectParams::new(&map);
+
+    Ok(map
+        .hit_objects
+        .iter()
+        .map(|h| {
+            let obj = ManiaObject::new(h, total_columns, &mut params);
+
+            (HitObject::is_circle(h), obj.start_time, obj.end_time)
+        })
+        .collect())
+}
+
+/// The column of an x-position.
+pub fn column(x: f32, total_columns: f32) -> usize {
+    ManiaObject::column(x, total_columns)
+}
